@@ -392,6 +392,8 @@ def motor_render(histories, runtime: bool) -> Script:
 
             if act in ("stop", "coast", "invert"):
                 s.add(f"{name}.{act}()")
+            elif act == "backward" and not a:
+                s.add(f"{name}.backward()")                  # the default speed
             elif act in ("set_speed", "backward"):
                 s.add(f"{name}.{act}({sp(a[0])})")
             elif act == "ramp":
